@@ -66,6 +66,21 @@ pub assume_specification[ char::is_digit ](c: char, radix: u32) -> (r: bool)
         radix == 16 ==> r == is_hex_digit(c),
 ;
 
+pub assume_specification[ char::is_ascii_digit ](c: &char) -> (r: bool)
+    ensures
+        r == is_dec_digit(*c),
+;
+
+pub assume_specification[ char::is_ascii_hexdigit ](c: &char) -> (r: bool)
+    ensures
+        r == is_hex_digit(*c),
+;
+
+pub assume_specification[ char::is_ascii_alphabetic ](c: &char) -> (r: bool)
+    ensures
+        r == (('a' <= *c <= 'z') || ('A' <= *c <= 'Z')),
+;
+
 pub assume_specification[ char::is_alphanumeric ](c: char) -> (r: bool)
     ensures
         r == char_is_alphanumeric(c),
